@@ -221,7 +221,57 @@ def c17_violation(rng):
     return None
 
 
+def log_violation(log):
+    """replay a recorded constructor/set_merge/setter sequence on the real code; afterwards the
+    estimator must accept and reject exactly like one freshly constructed from the criterion,
+    tolerance and threshold it reports"""
+    import bblean.bitbirch as bbm
+    bbm._global_merge_accept = None
+    _, a0, tol0, thr0, bf0 = log[0]
+    kw = {"threshold": thr0, "branching_factor": bf0}
+    if a0[0] != "none":
+        kw["merge_criterion"] = arg_value(tuple(a0))
+    if tol0 is not None:
+        kw["tolerance"] = tol0
+    try:
+        bb = bbm.BitBirch(**kw)
+    except ValueError:
+        return None
+    for i, c in enumerate(log[1:] + [None]):
+        o = observe(bb, True)
+        kw2 = {"threshold": o["thr"], "branching_factor": o["bf"], "merge_criterion": o["name"]}
+        if o["tol"] is not None:
+            kw2["tolerance"] = o["tol"]
+        try:
+            fresh = observe(bbm.BitBirch(**kw2), True)
+        except ValueError:
+            fresh = None
+        if fresh is not None and fresh["probes"] != o["probes"]:
+            return (f"after {log[:i + 1]} the estimator reports criterion={o['name']} tolerance={o['tol']} "
+                    f"threshold={o['thr']} but accepts/rejects differently from a freshly constructed "
+                    f"estimator with these values (probe results {o['probes']} vs {fresh['probes']})")
+        if c is None:
+            break
+        try:
+            if c[0] == "set_merge":
+                bb.set_merge(arg_value(tuple(c[1])), tolerance=c[2], threshold=c[3], branching_factor=c[4])
+            elif c[0] == "merge_criterion=":
+                bb.merge_criterion = c[1]
+            elif c[0] == "tolerance=":
+                bb.tolerance = c[1]
+            elif c[0] == "threshold=":
+                bb.threshold = c[1]
+        except ValueError:
+            pass
+    return None
+
+
 def search_c17(seed, tier, failures):
+    for kind, d in failures:
+        if isinstance(d, dict) and "calls" in d:
+            v = log_violation(d["calls"])
+            if v:
+                return {"violation": v, "calls": d["calls"]}
     rng = random.Random(seed + 3)
     for _ in range(400 if tier == "quick" else 4000):
         st = rng.getstate()
@@ -235,6 +285,8 @@ def replay_c17(payload):
     fi = payload.get("failing_input")
     if not fi:
         return True
+    if "calls" in fi:
+        return log_violation(fi["calls"]) is None
     rng = random.Random(fi["rng_seed"])
     for _ in range(4000):
         if c17_violation(rng):
